@@ -28,6 +28,8 @@ import QV.Lemmas.Callbacks
 import QV.Props.C17
 
 namespace QV.Props
+namespace C18
+open QV.Props.C17
 open QV QV.Cb
 
 variable {W : Type}
@@ -517,4 +519,5 @@ example : (EarlyStopping.new 1 (0 : ℝ) (.int 2) .metric "m" "  Variance\n" : E
 example : (EarlyStopping.new 1 (0 : ℝ) (.int 2) .observable "m" "rel" : Except PyErr (EarlyStopping ℝ)) = .error .ValueError :=
   (C18_unknown_criterion 1 0 2 "m" "rel" (by decide) (by decide) (by decide)).2.1
 
+end C18
 end QV.Props
